@@ -298,6 +298,15 @@ ADDENDA8 = {
 }
 
 
+ADDENDA9 = {
+    "C05": "Round 9: conditions chaining three terms with AND / OR; signed STEP expressions in the quick tier.",
+    "C09": "Round 9: no identifier declared twice when a scalar is DIMmed under -s.",
+    "C13": "Round 9: VAL together with the placeholder procedures; backslash inside literal arguments of runtime calls.",
+    "C14": "Round 9: keyword pairs written without the blank.",
+    "C16": "Round 9: PIX pictures whose side is not a power of two; PIX header = side from the file length.",
+}
+
+
 def build():
     for pid, add in ADDENDA4.items():
         if add not in CHECKS[pid]["text"]:
@@ -315,6 +324,9 @@ def build():
         if add not in CHECKS[pid]["text"]:
             CHECKS[pid]["text"] = CHECKS[pid]["text"].rstrip() + " " + add
     for pid, add in ADDENDA8.items():
+        if add not in CHECKS[pid]["text"]:
+            CHECKS[pid]["text"] = CHECKS[pid]["text"].rstrip() + " " + add
+    for pid, add in ADDENDA9.items():
         if add not in CHECKS[pid]["text"]:
             CHECKS[pid]["text"] = CHECKS[pid]["text"].rstrip() + " " + add
     checks = []
